@@ -317,6 +317,7 @@ Proof.
         cbn [lv] in L1. apply L1. lia.
       * change (exitc (bumped (pst p))) with (exitc (pst p)) in He1. congruence.
       * change (icount (bumped (pst p))) with (icount (pst p)) in Hi1. lia.
+      * rewrite Hfd2. destruct Hstl' as [[-> _]|[-> _]]; reflexivity.
     + reflexivity.
     + intros ->. unfold mu, dcount. cbn [lat stalled]. rewrite Hl, Hst. lat5.
       rewrite Hne3, Hne2, Hne1. cbn [nonempty].
@@ -462,6 +463,7 @@ Proof.
         destruct (fired l2); [exact Ho_l2|reflexivity].
       * change (exitc (bumped (pst p))) with (exitc (pst p)) in He2. congruence.
       * change (icount (bumped (pst p))) with (icount (pst p)) in Hi2. lia.
+      * cbn [fired nonempty]. destruct Hstl' as [[_ ->]|[_ ->]]; reflexivity.
     + reflexivity.
     + intros ->. unfold mu, dcount. cbn [lat stalled]. rewrite Hl, Hst. lat5.
       rewrite Hne3, Hne1. cbn [nonempty].
